@@ -105,6 +105,13 @@ Definition bopT_op (o : bopT) : bop * Z :=
   | TPrune r c => (OPrune r, c)
   end.
 
+(* monomorphic abbreviations used by the harness-written terms (cheaper to elaborate) *)
+Definition bS (k : bkey) (v : bval) : bstep := SSet k v.
+Definition bY (k : bkey) (v : bval) : bstep := SSetSync k v.
+Definition bB (l : list bwop) (b : bool) : bstep := SBatch l b.
+Definition bD (k : bkey) : bwop := WDel k.
+Definition bP (k : bkey) (v : bval) : bwop := WPut k v.
+
 (* per operation, what the implementation answered: result code (0 ok, 1..3 PruneBlocks error,
    10 SaveBlock panic, 99 crashed), Base(), Height() of the live (or re-opened) store after it,
    number of write steps it performed, Go audit of the live store after it (fail height, reason) *)
@@ -216,10 +223,24 @@ Definition mk_sstate (t : sstateT) : sstate :=
   {| s_last := a; s_initial := b; s_vals := c; s_next_vals := d; s_lhvc := e; s_params := f; s_lhpc := g |}.
 
 Inductive sopT :=
-| TSSave (st : sstateT) (crash : Z)
+| TSSave (last initial vals next_vals lhvc params lhpc : Z) (crash : Z)
 | TSPrune (from to : Z) (crash : Z).
 Definition sopT_op (o : sopT) : sop * Z :=
-  match o with TSSave st c => (SOSave (mk_sstate st), c) | TSPrune f t c => (SOPrune f t, c) end.
+  match o with
+  | TSSave a b c d e f g cr => (SOSave (mk_sstate (a, b, c, d, e, f, g)), cr)
+  | TSPrune f t c => (SOPrune f t, c)
+  end.
+
+(* monomorphic abbreviations used by the harness-written terms (cheaper to elaborate) *)
+Definition sS (k : skey) (v : sval) : sstep := SSet k v.
+Definition sY (k : skey) (v : sval) : sstep := SSetSync k v.
+Definition sB (l : list swop) (b : bool) : sstep := SBatch l b.
+Definition sD (k : skey) : swop := WDel k.
+Definition sP (k : skey) (v : sval) : swop := WPut k v.
+
+(* run-length decoding of per-prefix lists: (count, a, b) *)
+Definition rle (l : list (Z * Z * Z)) : list (Z * Z) :=
+  flat_map (fun '(n, a, b) => repeat (a, b) (Z.to_nat n)) l.
 
 Fixpoint run_sops (K B : Z) (d : sdb) (ops : list sopT) : list (Z * Z) * list sstep :=
   match ops with
@@ -257,8 +278,9 @@ Inductive case :=
    what the Go-side audit found (fail height, reason); [truth]: per height from [tlo] the
    (validators hash, params hash) of the chain; after the last prefix the hashes resolved by
    the implementation for its final range *)
-| CState (ops : list sopT) (res_i : list (Z * Z)) (steps_i : list sstep)
-         (ranges : list (Z * Z)) (audits_i : list (Z * Z))
+| CState (ops : list sopT) (res_i : list (Z * Z))
+         (skip : Z) (steps_i : list sstep)       (* the journal without its first [skip] steps (large case: the model's steps stand in for them) *)
+         (ranges_rle : list (Z * Z * Z)) (audits_rle : list (Z * Z * Z))
          (tlo : Z) (truth : list (Z * Z)) (resolved_i : list (Z * Z))
          (final_i : list (skey * sval)).
 
@@ -303,8 +325,11 @@ Definition check (c : case) : verdict :=
     let d0 := breplay js [] in
     check_bhist (map (fun p => TPrune (fst p) (snd p)) prunes) res_i (map cstep_step steps_i) audits_i None
                 d0 (load_state d0)
-  | CState ops res_i steps_i ranges audits_i tlo truth resolved_i final_i =>
+  | CState ops res_i skip steps_i0 ranges_rle audits_rle tlo truth resolved_i final_i =>
     let '(res_m, steps_m) := run_sops K B [] ops in
+    let steps_i := firstn (Z.to_nat skip) steps_m ++ steps_i0 in
+    let ranges := rle ranges_rle in
+    let audits_i := rle audits_rle in
     let dbs := prefixes skey_eqb steps_i [] in
     let dfin := sreplay steps_i [] in
     let last_rng := last ranges (1, 0) in
